@@ -196,7 +196,7 @@ theorem loopF_le {r r' : Rec} (hr : Rec.le r r') (ctx : Ctx) (c : Expr) (body : 
 /-- One evaluation level is monotone in the recursion record. -/
 theorem stepF_le {r r' : Rec} (hr : Rec.le r r') : Rec.le (stepF r) (stepF r') where
   expr := fun c e => exprF_le hr c e
-  block := fun c ss => forEachM_le (fun s => stmtF_le hr c s) ss
+  block := fun c ss => forEachM_le (fun s => bind_le (M.le_refl _) (fun _ => stmtF_le hr c s)) ss
   loop := fun c e b => loopF_le hr c e b
 
 theorem bottom_le (r : Rec) : Rec.le Rec.bottom r where
